@@ -4,6 +4,15 @@ from .. import common as C
 
 PID = "C13"
 
+# SAVE running while readers / writers hold keys: id, keys (dirty lists), threads, grants (schedule points of tx.go)
+SAVE_SCENARIOS = [
+    ("s-save-alone", "1=2,2=1", "SAVE:1", "0,0"),
+    ("s-save-while-read-held", "1=2,2=1", "LEN:1,SAVE:1", "0,0,1,1,0,0,1,1"),
+    ("s-save-while-two-readers", "1=2,2=1", "LEN:1,LEN:2,SAVE:1", "0,0,1,1,2,2,0,1,0,1,2,2"),
+    ("s-save-while-writer-held", "1=2,2=1", "PUSH:1,SAVE:1", "0,0,1,1,0,0,0,1,1"),
+    ("s-save-while-pop-held", "1=2,2=3", "POP:2,SAVE:1", "0,0,1,1,0,0,0,1,1"),
+]
+
 
 def run(tier, seed, replay=None):
     out = C.Outcome(PID, tier, seed)
@@ -28,10 +37,11 @@ def run(tier, seed, replay=None):
         out.violation({"property": PID, "broken": prep.failed_stage, "detail": prep.log[-3000:]}, nofail=True)
         return out.finish()
     known = {f["key"]: f for f in C.findings_for(PID) if "key" in f}
+    rp = {}
     if replay:
         import json
         rp = json.load(open(replay))
-        seeds = [(int(rp.get("seed", seed)), bool(rp.get("del", False)))]
+        seeds = [] if "save_scenario" in rp else [(int(rp.get("seed", seed)), bool(rp.get("del", False)))]
     else:
         n = 12 if tier == "thorough" else 4
         seeds = [(seed * 100 + i, False) for i in range(n)] + [(seed * 100 + 50 + i, True) for i in range(max(2, n // 3))]
@@ -66,6 +76,37 @@ def run(tier, seed, replay=None):
             seen.add(sig)
             out.violation({"property": PID, "seed": sd, "del": with_del, "signature": sig, "what": l[:600],
                            "replay_cmd": "bin/check C13 --replay <this file>  (re-runs vh crash --seed %d%s)" % (sd, " --del" if with_del else "")})
+    # --- SAVE while another command holds a key (forced through the schedule points of tx.go): when SAVE has replied,
+    # storage must hold every key's value - that is what the kill runs above rely on when they say "last completed SAVE"
+    if not replay or "save_scenario" in rp:
+        import os
+        scns = [tuple(rp["save_scenario"])] if replay else SAVE_SCENARIOS
+        d = C.scratch_dir("c13")
+        try:
+            p = os.path.join(d, "save.scn")
+            with open(p, "w") as f:
+                for sc in scns:
+                    f.write("SCN %s %s %s %s\n" % sc)
+            rc, o = C.sh([C.VH, "conc", "--in", p], env=C.go_env(), timeout=600)
+            stats["save_scenarios"] = 0
+            for l in o.splitlines():
+                if not l.startswith("OUT "):
+                    continue
+                t = l.split()
+                f = dict(x.split("=", 1) for x in t[2:] if "=" in x)
+                sc = next(x for x in scns if x[0] == t[1])
+                stats["save_scenarios"] += 1
+                save_thread = [str(i) for i, c in enumerate(sc[2].split(",")) if c.startswith("SAVE")]
+                replied = set(x.split(":")[0] for x in f.get("replies", "-").split(",") if ":" in x)
+                if all(st in replied for st in save_thread) and f.get("stored") != f.get("vals"):
+                    out.violation({"property": PID, "save_scenario": list(sc), "signature": "CRASH/save-incomplete",
+                                   "what": "SAVE has replied; the index holds %s, storage holds %s" % (f.get("vals"), f.get("stored")),
+                                   "readable": ["keys %s (lists, never flushed before)" % sc[1], "threads %s" % sc[2], "grants %s" % sc[3],
+                                                "a kill right after this SAVE would recover the stored state"],
+                                   "replay_cmd": "bin/check C13 --replay <this file>"})
+                    break
+        finally:
+            C.sh(["rm", "-rf", d])
     for sig in sorted(confirmed):
         out.known_confirmed.append(known[sig])
     cov["evaluations"] = stats["kills"]
